@@ -61,6 +61,19 @@ CLAIMS = {
         'technique': 'TLA+ model checking (TLC) + exhaustive replay of TLC-enumerated body shapes into the real parsers',
         'design_ref': '5/C03',
     },
+    'C04': {
+        'level': 'model_checking',
+        'text': 'SeriesIndex.tla models the history of pushes x series/sample insert outcomes x client retries x cache resets x writer time zone with the code\'s '
+                'deviations as named constants (CacheSetBeforeInsert, DateCarriesLocalZone); TLC checks AckedDiscoverable/AckedStored for 3 zones. TLC-simulated histories '
+                'are replayed through the REAL Loki push route, parser, fingerprint cache, insert services (fake ClickHouse with scripted per-table outcomes), the store '
+                '(real DDL + MVs on chsql) and the REAL reader route, under TZ=America/New_York, UTC, Europe/Moscow; HTTP status, stored series rows and discoverability of '
+                'every acknowledged sample are compared with the model. Labels.tla validates, by TLC, the trace of (label set, permutation, protocol) -> fingerprint/document '
+                'recorded from the real parsers: fingerprint is a function of the sanitised set, no collision in the universe, document decodes (encoding/json and '
+                'chsql JSONExtractKeysAndValues) to the set.',
+        'note': 'hash injectivity only on the enumerated universe; writer and reader share the process zone in the replay; failed INSERT = retries exhausted.',
+        'technique': 'TLA+ model checking (TLC) + replay of TLC histories through writer->store->reader + TLC trace validation of recorded fingerprints',
+        'design_ref': '5/C04',
+    },
 }
 
 NOT_YET = 'check not built yet in this round (planned, see DESIGN.md section 5); not claimed until its machinery runs'
